@@ -4,6 +4,7 @@ package priority
 
 import (
 	"sort"
+	"time"
 
 	"google.golang.org/grpc/balancer"
 )
@@ -38,4 +39,12 @@ func VerifSnapshot(bal balancer.Balancer) VerifSnap {
 	}
 	sort.Slice(s.Children, func(i, j int) bool { return s.Children[i].Name < s.Children[j].Name })
 	return s
+}
+
+// VerifSetTimeAfterFunc replaces the package's timeAfterFunc (nil restores time.AfterFunc).
+func VerifSetTimeAfterFunc(f func(time.Duration, func()) *time.Timer) {
+	if f == nil {
+		f = time.AfterFunc
+	}
+	timeAfterFunc = f
 }
